@@ -70,13 +70,15 @@ Prog == <<
   PG(<<PrintS(<<V("Q")>>)>>, {"Q"}, {}),
   PG(<<Return(NullC)>>, {}, {}),
   PG(<<Begin(<<Let("X", Bin("/", V("X"), I(0)))>>, <<When("DIVIDE_BY_ZERO", <<PrintS(<<Str("caught")>>)>>)>>), Return(V("S"))>>, {"X", "S"}, {}),
-  PG(<<Func("F", <<"A">>, <<Return(Bin("*", V("A"), I(2)))>>), Let("Y", UCall("F", <<V("X")>>)), PrintS(<<V("Y")>>)>>, {"X"}, {"Y"}),
-  PG(<<Func("F", <<"A">>, <<Return(Bin("*", V("A"), I(2)))>>), Let("Y", UCall("F", <<Bin("/", V("X"), I(0))>>)), PrintS(<<V("Y")>>)>>, {"X"}, {"Y"}),
+  PG(<<Func("F", <<"A">>, <<Return(Bin("*", V("A"), I(2)))>>), Let("Y", UCall("F", <<V("X")>>)), PrintS(<<V("Y")>>)>>, {"X"}, {"Y", "F()"}),
+  PG(<<Func("F", <<"A">>, <<Return(Bin("*", V("A"), I(3)))>>), Let("Y", UCall("F", <<Bin("/", V("X"), I(0))>>)), PrintS(<<V("Y")>>)>>, {"X"}, {"Y", "F()"}),
   PG(<<Let("X", I(5)), Let("S", Str("made")), PrintS(<<V("S"), V("X")>>)>>, {}, {"X", "S"}),
   PG(<<Return(V("R"))>>, {"R"}, {}),
   BadText("begin print 1;", {0}),
   BadText("print );", {}),
   PG(<<If(Bin(">", V("X"), I(0)), <<Return(V("X"))>>, <<>>), PrintS(<<Str("no")>>)>>, {"X"}, {}),
+  PG(<<Func("F", <<"A">>, <<Return(Bin("+", V("A"), I(100)))>>)>>, {}, {"F()"}),
+  PG(<<PrintS(<<UCall("F", <<I(1)>>)>>), Return(UCall("F", <<V("X")>>))>>, {"X", "F()"}, {}),
   \* texts that fail after part of the tree has been built (what the parser must release on the way out)
   BadText("Z = tab(2, 1 +;", {}),
   BadText("print 1 + (2 * ;", {}),
@@ -117,6 +119,8 @@ Expr == <<
   XP(V("R"), {"R"}, 6, 0),
   XP(Bin("+", Str("k"), Str("l")), {}, 4, 0),
   XP(V("Q"), {"Q"}, -1, 0),
+  XP(UCall("F", <<V("X")>>), {"X", "F()"}, -1, 0),
+  XP(UCall("G", <<I(1)>>), {"G()"}, -1, 0),                  \* G is only ever mentioned by rejected texts
   BadX("abs(1, 2)\n", {}),
   BadX("\"abc\".foo()\n", {}),
   BadX("tab(2, 1 +\n", {}),
@@ -127,11 +131,11 @@ Expr == <<
 ExprText(q) == IF Expr[q].bad THEN Expr[q].text ELSE RMin(Expr[q].e) \o "\n"
 
 (* --------------------------------- state ------------------------------- *)
-DeadCtx == [alive |-> FALSE, S |-> State0, stop |-> FALSE, hasrv |-> FALSE, rv |-> VNil, decl |-> {}, maybe |-> {}, gen |-> 0, par |-> {}]
+DeadCtx == [alive |-> FALSE, S |-> State0, stop |-> FALSE, hasrv |-> FALSE, rv |-> VNil, decl |-> {}, maybe |-> {}, gen |-> 0, par |-> {}, base |-> {}, pgen |-> 0]
 NewCtx(g) == [DeadCtx EXCEPT !.alive = TRUE, !.gen = g]
 M0 == [ctx  |-> [c \in RangeOf(CtxNames) |-> IF c = "c0" THEN NewCtx(1) ELSE DeadCtx],
        val  |-> [h \in RangeOf(ValH)  |-> [st |-> "free", v |-> VNil]],
-       lib  |-> [h \in RangeOf(LibH)  |-> [st |-> "free", c |-> "", v |-> VNil]],
+       lib  |-> [h \in RangeOf(LibH)  |-> [st |-> "free", c |-> "", n |-> "", v |-> VNil]],
        exe  |-> [h \in RangeOf(ExeH)  |-> [st |-> "free", c |-> "", p |-> 0, gen |-> 0]],
        expr |-> [h \in RangeOf(ExprH) |-> [st |-> "free", c |-> "", q |-> 0, gen |-> 0]],
        ngen |-> 1]
@@ -145,7 +149,7 @@ FirstFree(f, Hs) == LET fr == {j \in DOMAIN Hs : f[Hs[j]].st = "free"} IN
 
 \* a call that parses, runs, evaluates, registers a symbol or purges in context c ends the guarantee on
 \* every library-owned pointer obtained from c
-Invalidate(m, c) == [m EXCEPT !.lib = [h \in DOMAIN @ |-> IF @[h].c = c THEN [st |-> "free", c |-> "", v |-> VNil] ELSE @[h]]]
+Invalidate(m, c) == [m EXCEPT !.lib = [h \in DOMAIN @ |-> IF @[h].c = c THEN [st |-> "free", c |-> "", n |-> "", v |-> VNil] ELSE @[h]]]
 
 SettleC(S) == [S EXCEPT !.sig = "", !.err = NoErr, !.out = "", !.rv = VNil, !.hasrv = FALSE, !.cerr = NoErr, !.depth = 0, !.inloop = 0, !.locked = {}]
 
@@ -182,10 +186,24 @@ Pre(m, a) ==
     [] a.a = "store"     -> Live(m, a.c) /\ a.h \in DOMAIN m.val /\ m.val[a.h].st = "live" /\ StoreFits(a.n, m.val[a.h].v)
     [] a.a = "load"      -> Live(m, a.c) /\ a.h \in DOMAIN m.lib /\ m.lib[a.h].st = "free"
     [] a.a = "read_lib"  -> a.h \in DOMAIN m.lib /\ m.lib[a.h].st = "valid"
+    \* assignment through the pointer bloc_ctx_load_variable returned: the host updates the variable in place
+    [] a.a \in {"lib_setstr", "lib_null"} -> a.h \in DOMAIN m.lib /\ m.lib[a.h].st = "valid" /\ m.lib[a.h].n # ""
+                                            /\ m.lib[a.h].n \in DOMAIN m.ctx[m.lib[a.h].c].S.vars
+                                            /\ (a.a = "lib_setstr" => TypeOf(m.lib[a.h].v).m = "str" /\ TypeOf(m.lib[a.h].v).l = 0)
+                                            /\ TypeOf(m.lib[a.h].v).m # "any"
     [] a.a = "parse_exec" -> Live(m, a.c) /\ a.h \in DOMAIN m.exe /\ m.exe[a.h].st = "free" /\ a.p \in DOMAIN Prog
                              /\ Prog[a.p].needs \cap (m.ctx[a.c].maybe \ m.ctx[a.c].decl) = {}
+                             \* (a text that declares a function completely and is rejected further on is the subject of C11,
+                             \*  known finding D23: the model does not follow it)
+                             /\ (ParseOk(m.ctx[a.c], a.p) \/ ~\E j \in DOMAIN Prog[a.p].ast : Prog[a.p].ast[j].k = "func")
     [] a.a = "run"       -> a.h \in DOMAIN m.exe /\ ExeUsable(m, a.h) /\ a.c = m.exe[a.h].c
-    [] a.a = "run2"      -> a.h \in DOMAIN m.exe /\ ExeUsable(m, a.h) /\ Live(m, a.c) /\ a.c # m.exe[a.h].c /\ a.h \in m.ctx[a.c].par
+    \* bloc_execute2: the clone runs an executable of its original - one compiled before the clone was taken, or one
+    \* compiled later that only uses names (variables, functions) the clone already had, while the clone itself has
+    \* not declared anything new (else the symbol tables no longer line up)
+    [] a.a = "run2"      -> a.h \in DOMAIN m.exe /\ ExeUsable(m, a.h) /\ Live(m, a.c) /\ a.c # m.exe[a.h].c
+                            /\ \/ a.h \in m.ctx[a.c].par
+                               \/ /\ m.ctx[a.c].pgen = m.exe[a.h].gen /\ m.ctx[a.c].decl = m.ctx[a.c].base
+                                  /\ (Prog[m.exe[a.h].p].needs \cup Prog[m.exe[a.h].p].decl) \subseteq m.ctx[a.c].base
     [] a.a = "exec_free" -> a.h \in DOMAIN m.exe /\ m.exe[a.h].st # "free"
     [] a.a = "parse_expr" -> Live(m, a.c) /\ a.h \in DOMAIN m.expr /\ m.expr[a.h].st = "free" /\ a.p \in DOMAIN Expr
                              /\ Expr[a.p].needs \cap (m.ctx[a.c].maybe \ m.ctx[a.c].decl) = {}
@@ -200,7 +218,9 @@ Post(m, a) ==
          \* a clone has the variables and functions of the original, no pending result and no stop condition;
          \* the executables the original may lend to it are the ones compiled before the clone was taken
          [m EXCEPT !.ctx["c1"] = [NewCtx(m.ngen + 1) EXCEPT !.S = SettleC(m.ctx["c0"].S), !.decl = m.ctx["c0"].decl, !.maybe = m.ctx["c0"].maybe,
-                                                            !.par = {h \in DOMAIN m.exe : ExeUsable(m, h) /\ m.exe[h].c = "c0"}],
+                                                            !.par = {h \in DOMAIN m.exe : ExeUsable(m, h) /\ m.exe[h].c = "c0"},
+                                                            \* the names (and the symbol table generation of the original) the clone started from
+                                                            !.base = m.ctx["c0"].decl, !.pgen = m.ctx["c0"].gen],
                    !.ngen = @ + 1]
     [] a.a = "ctx_free" ->
          [Invalidate(m, a.c) EXCEPT !.ctx[a.c] = DeadCtx]
@@ -217,19 +237,27 @@ Post(m, a) ==
                              IF ty.l = 0 /\ ty.m \in {"str", "undef"} THEN [m EXCEPT !.val[a.h].v = VStr(a.n)] ELSE m
     [] a.a = "read_val" -> m
     [] a.a = "read_lib" -> m
+    [] a.a \in {"lib_setstr", "lib_null"} ->
+         LET nv == IF a.a = "lib_setstr" THEN VStr(a.n) ELSE NullOf(TypeOf(m.lib[a.h].v))
+             c  == m.lib[a.h].c  n == m.lib[a.h].n IN
+         \* every pointer into the same variable shows the new value
+         [m EXCEPT !.ctx[c].S = SetVar(@, n, nv),
+                   !.lib = [h \in DOMAIN @ |-> IF @[h].st = "valid" /\ @[h].c = c /\ @[h].n = n THEN [@[h] EXCEPT !.v = nv] ELSE @[h]]]
     [] a.a = "store" ->
          LET m1 == Invalidate(m, a.c) IN
          [m1 EXCEPT !.ctx[a.c].S = SetVar(@, a.n, m.val[a.h].v), !.ctx[a.c].decl = @ \cup {a.n}, !.val[a.h].st = "moved"]
     [] a.a = "load" ->
          IF a.n \in m.ctx[a.c].decl
-         THEN [m EXCEPT !.lib[a.h] = [st |-> "valid", c |-> a.c,
+         THEN [m EXCEPT !.lib[a.h] = [st |-> "valid", c |-> a.c, n |-> a.n,
                                       v |-> IF a.n \in DOMAIN m.ctx[a.c].S.vars THEN m.ctx[a.c].S.vars[a.n] ELSE VNull(TAny)]]
          ELSE m
     [] a.a = "parse_exec" ->
          LET m1 == Invalidate(m, a.c) IN
          IF ParseOk(m.ctx[a.c], a.p)
          THEN [m1 EXCEPT !.exe[a.h] = [st |-> "ok", c |-> a.c, p |-> a.p, gen |-> m.ctx[a.c].gen],
-                         !.ctx[a.c].decl = @ \cup Prog[a.p].decl]
+                         !.ctx[a.c].decl = @ \cup Prog[a.p].decl,
+                         \* a function declaration takes effect when its text is compiled (and again whenever it runs)
+                         !.ctx[a.c].S = DeclFuncs(Prog[a.p].ast, @)]
          \* names a rejected text mentions may stay declared (never assigned): whether they do is not pinned
          ELSE [m1 EXCEPT !.ctx[a.c].maybe = @ \cup Prog[a.p].decl]
     [] a.a \in {"run", "run2"} ->
@@ -242,7 +270,7 @@ Post(m, a) ==
     [] a.a = "eval" ->
          LET m1 == Invalidate(m, a.c)
              r == Eval(Expr[m.expr[a.g].q].e, [m.ctx[a.c].S EXCEPT !.sig = "", !.err = NoErr]) IN
-         IF Failed(r.S) THEN m1 ELSE [m1 EXCEPT !.lib[a.h] = [st |-> "valid", c |-> a.c, v |-> r.v]]
+         IF Failed(r.S) THEN m1 ELSE [m1 EXCEPT !.lib[a.h] = [st |-> "valid", c |-> a.c, n |-> "", v |-> r.v]]
     [] a.a = "expr_free" -> [m EXCEPT !.expr[a.h] = [st |-> "free", c |-> "", q |-> 0, gen |-> 0]]
     [] a.a = "drop" ->
          IF m.ctx[a.c].hasrv
@@ -299,6 +327,9 @@ Why(m, a, o) ==
          IF a.a = "val_setstr" /\ o.ret # (TypeOf(m.val[a.h].v).l = 0 /\ TypeOf(m.val[a.h].v).m \in {"str", "undef"})
          THEN "bloc_assign_literal must succeed exactly on a string (or untyped) value"
          ELSE ValWhy(o.val, v2)
+    [] a.a \in {"lib_setstr", "lib_null"} ->
+         IF a.a = "lib_setstr" /\ ~o.ret THEN "bloc_assign_literal refused a string variable"
+         ELSE LET w == ValWhy(o.val, Post(m, a).lib[a.h].v) IN IF w = "" THEN "" ELSE "after the assignment: " \o w
     [] a.a = "read_lib" -> LET w == ValWhy(o.val, m.lib[a.h].v) IN IF w = "" THEN "" ELSE "library-owned pointer no longer shows its value: " \o w
     [] a.a = "store" -> IF ~o.sym THEN "bloc_ctx_register_symbol failed" ELSE IF ~o.ret THEN "bloc_ctx_store_variable failed" ELSE ""
     [] a.a = "load" ->
